@@ -1259,17 +1259,29 @@ func (env *specEnv) evalCall(c *ECall) sval {
 		}
 		// method call
 		t := x.typ
-		obj, _, _ := types.LookupFieldOrMethod(t, true, env.pkg, s.Name)
+		obj, path, _ := types.LookupFieldOrMethod(t, true, env.pkg, s.Name)
 		if obj == nil {
 			if pt, ok := t.Underlying().(*types.Pointer); ok {
-				obj, _, _ = types.LookupFieldOrMethod(pt.Elem(), true, env.pkg, s.Name)
+				obj, path, _ = types.LookupFieldOrMethod(pt.Elem(), true, env.pkg, s.Name)
 			}
 		}
 		if obj == nil {
 			// unexported method from another package
-			obj = lookupMethodAnyPkg(t, s.Name)
+			obj, path = lookupMethodAnyPkg(t, s.Name)
 		}
 		if fo, ok := obj.(*types.Func); ok {
+			// promoted method: walk the embedded fields that lead to the receiver
+			for _, i := range path[:max(len(path)-1, 0)] {
+				ct := x.typ
+				if pt, ok := ct.Underlying().(*types.Pointer); ok {
+					ct = pt.Elem()
+				}
+				st, ok := ct.Underlying().(*types.Struct)
+				if !ok {
+					env.fail("promoted method %s through non-struct %s", s.Name, ct)
+				}
+				x = env.field(x, st.Field(i).Name())
+			}
 			return env.callGo(fo, &x, c.Args)
 		}
 		env.fail("no method %s on %s", s.Name, t)
@@ -1278,22 +1290,22 @@ func (env *specEnv) evalCall(c *ECall) sval {
 	return sval{}
 }
 
-func lookupMethodAnyPkg(t types.Type, name string) types.Object {
+func lookupMethodAnyPkg(t types.Type, name string) (types.Object, []int) {
 	ms := types.NewMethodSet(t)
 	for i := 0; i < ms.Len(); i++ {
 		if ms.At(i).Obj().Name() == name {
-			return ms.At(i).Obj()
+			return ms.At(i).Obj(), ms.At(i).Index()
 		}
 	}
 	if _, ok := t.Underlying().(*types.Pointer); !ok {
 		ms = types.NewMethodSet(types.NewPointer(t))
 		for i := 0; i < ms.Len(); i++ {
 			if ms.At(i).Obj().Name() == name {
-				return ms.At(i).Obj()
+				return ms.At(i).Obj(), ms.At(i).Index()
 			}
 		}
 	}
-	return nil
+	return nil, nil
 }
 
 func (env *specEnv) lookupPure(name string) *PureFn {
